@@ -246,7 +246,7 @@ def rand_run(rng, fmt, kind, *, calls=None, iters=None, value_classes=None, dist
         s.insert(-1, ['ofmt', rng.choice([1, 2, 3, 1 + 4, 8, 16 + 1, 64, 128 + 3])]); classes.append('user_stream_format')
     if rng.random() < 0.25:
         s.insert(-1, ['iexc', 1]); classes.append('input_stream_with_exceptions')
-    if cb is not None and cb[0] == 'builtin' and cb[1] in (2, 3) and rng.random() < 0.5:
+    if cb is not None and cb[0] == 'builtin' and rng.random() < 0.4:
         # std::cout as the program left it (precision max_digits10, fixed, showpoint) when the verbose callback prints
         s.insert(-1, ['coutfmt', rng.choice([256, 256 + 1, 8, 1 + 4, 16 + 256, 3])]); classes.append('cout_format_changed')
     if cb is not None and cb[0] == 'builtin' and rng.random() < 0.5:
@@ -962,7 +962,10 @@ def gen_C20(c, rng, tier):
             s = spec_run('mc', fmt, dims=1, channels=n, seed=rng.getrandbits(32), chk=['weights', toks(fmt, ws), fmt.rtok(0), fmt.rtok(Fraction(1, 4))],
                          f=['tab', toks(fmt, [Fraction(1), Fraction(2), Fraction(0)])], mp=rand_map_tab(rng, fmt, n),
                          cb=['builtin', rng.choice([2, 3]), fmt.rtok(0)], ops=[['run', [rng.choice([10, 100, 1000 if n < 8 else 50])] * 2], ['dump'], ['maxdiff']])
-            c.add(t, 'run', s, classes=['summary', 'pattern_' + pat, 'channels_%s' % ('1' if n == 1 else 'few' if n < 13 else 'many')], nontrivial=n >= 2)
+            fm = []
+            if rng.random() < 0.5:
+                s.insert(-1, ['coutfmt', rng.choice([256, 256 + 1, 8, 1 + 4, 16 + 256, 3])]); fm = ['cout_format_changed']
+            c.add(t, 'run', s, classes=['summary', 'pattern_' + pat, 'channels_%s' % ('1' if n == 1 else 'few' if n < 13 else 'many')] + fm, nontrivial=n >= 2)
 
 def history_ops(rng, calls, with_rollback):
     """operation history built from run(m), reload, rollback(k), resume"""
